@@ -184,6 +184,55 @@ def run (c : Chan) : List Op → Option (Chan × List Obs)
 /-- reachable from `channel()` -/
 def Reach (c : Chan) : Prop := ∃ ops os, run init ops = some (c, os)
 
+/-! ### two channels and `Clone::clone_from`
+
+A sender handle can be re-pointed with `a.clone_from(&b)` — to a sender of its own channel or of
+**another** one.  `Clone::clone_from` is `*self = source.clone()`: the old value of `a` is dropped
+(`Sender::drop` runs: if it was the last sender of its channel, the receiver parked there is woken and
+its stream ends) and `a` becomes one more sender of `b`'s channel.  `Pair` is two independent channels;
+an ordinary operation goes to one of them; `cloneFrom` is the `dropSender` step on the channel of the
+overwritten handle followed by the `clone` step on the channel of the source (the order is immaterial:
+on different channels the steps commute, on one channel `i ≠ j` is alive throughout, so `i` is not the
+last sender either way).  Every observation is the list of the `Chan` observations made. -/
+
+inductive Side where
+  | a
+  | b
+deriving Repr, DecidableEq
+
+structure Pair where
+  a : Chan := init
+  b : Chan := init
+deriving Repr, DecidableEq
+
+def Pair.get (p : Pair) : Side → Chan
+  | .a => p.a
+  | .b => p.b
+
+def Pair.set (p : Pair) : Side → Chan → Pair
+  | .a, c => { p with a := c }
+  | .b, c => { p with b := c }
+
+inductive POp where
+  | on (s : Side) (op : Op)
+  | cloneFrom (si : Side) (i : Nat) (sj : Side) (j : Nat)   -- `si.senders[i].clone_from(&sj.senders[j])`
+deriving Repr, DecidableEq
+
+def Pair.step (p : Pair) : POp → Option (Pair × List Obs)
+  | .on s op =>
+    match ActixNet.Chan.step (p.get s) op with
+    | none => none
+    | some (c', o) => some (p.set s c', [o])
+  | .cloneFrom si i sj j =>
+    if si = sj ∧ i = j then none   -- `a.clone_from(&a)` does not borrow-check
+    else
+      match ActixNet.Chan.step (p.get si) (.dropSender i) with
+      | none => none
+      | some (c1, o1) =>
+        match ActixNet.Chan.step ((p.set si c1).get sj) (.clone j) with
+        | none => none
+        | some (c2, o2) => some ((p.set si c1).set sj c2, [o1, o2])
+
 /-! ### what a trace (operations zipped with their observations) says, independent of the state -/
 
 /-- messages whose `send` / `start_send` returned `Ok`, in send order -/
